@@ -419,7 +419,7 @@ def run(prog: Program, chk: Check) -> None:
                        "requiring a tolerant conversion rather than by evaluating it.")
     chk.assumptions = ["role vocabulary (printed under coverage.role_vocabulary)"]
     chk.extra["role_vocabulary"] = roles.VOCAB
-    g1(prog, chk)
-    g2_g3_steppers(prog, chk)
-    g3_front_ends(prog, chk)
-    g4(prog, chk)
+    chk.call(g1, prog, chk)
+    chk.call(g2_g3_steppers, prog, chk)
+    chk.call(g3_front_ends, prog, chk)
+    chk.call(g4, prog, chk)
